@@ -12,6 +12,7 @@ package c10
 //   exit, killdate            COMMAND_EXIT / COMMAND_KILL_DATE callbacks (-> Died)
 //   markdead, markalive       operator package through Teamserver.DispatchEvent
 //   ladd, lremove, ledit      operator Listener/Add, /Remove, /Edit packages through DispatchEvent
+//   restart, restartx         a new teamserver on the same file (restart_test.go)
 
 import (
 	"database/sql"
@@ -160,7 +161,7 @@ type runState struct {
 	lorig map[string]HTTPSpec // HTTP listeners that were edited: the configuration before the first edit
 	https []*handlers.HTTP
 	restarts int
-	restartFn func() bool // how a "restart" operation is carried out (nil: in-process transcription)
+	restartFn func(forced bool) bool // how a "restart" operation is carried out (nil: in-process transcription)
 }
 
 func newRun(w *pvx.World, h History) *runState {
@@ -215,11 +216,14 @@ func httpInfo(l LSpec) map[string]any {
 func (r *runState) apply(op Op) bool {
 	w := r.w
 	switch op.K {
-	case "restart":
+	case "restart", "restartx":
+		// "restart" is only performed while every stored link joins two active sessions;
+		// "restartx" (piv_test.go) is a restart at any point
+		forced := op.K == "restartx"
 		if r.restartFn != nil {
-			return r.restartFn()
+			return r.restartFn(forced)
 		}
-		return r.restart()
+		return r.restart(forced)
 	case "ladd":
 		if op.L == nil {
 			return false
@@ -328,6 +332,11 @@ func (r *runState) apply(op Op) bool {
 			if p.NameID == fmt.Sprintf("%08x", r.h.Agents[op.B].ID) {
 				return false
 			}
+		}
+		// ... nor an ancestor by the stored links (after a restart at any point a stored link can
+		// name a session that is not in memory; without such restarts rows and Links lists agree)
+		if storedAncestor(w, int64(r.h.Agents[op.B].ID), int64(spec.ID)) {
+			return false
 		}
 		ch := r.h.Agents[op.B]
 		k, iv := keyFrom(r.seed(op.B))
